@@ -4,6 +4,7 @@ import (
 	"fmt"
 	"go/token"
 	"go/types"
+	"sort"
 	"strings"
 
 	"fpcheck/internal/core"
@@ -97,6 +98,7 @@ func runC03(c *core.Ctx) {
 	c.Rule("R2", "a loop step / group size taken from a parameter is proven positive where the loop runs", 2)
 	c.Rule("R3", "no helper named by the property writes through its slice/map arguments", 40)
 	c.Rule("R4", "every integer division or remainder in the helpers has a divisor proven non-zero under its dominating guards", 1)
+	c.Rule("R6", "window helpers: on every path, Drop/DropLast/Take/TakeLast return exactly the window of the input their definition prescribes for the count region the path lies in (count >= len; 1 <= count < len; for Drop/DropLast also count <= 0)", 4)
 	c.Rule("R5", "an input map is never read with a plain index expression for a key that may be absent (missing key ≠ stored zero value)", 1)
 	ei := core.ComputeEffects(p)
 	helpers := c03helpers(p)
@@ -262,6 +264,7 @@ func runC03(c *core.Ctx) {
 	}
 	c.Check(true, "R4", "scan", "fp.go", fmt.Sprintf("%d integer divisions/remainders in %d functions, all with a non-zero divisor", nDiv, len(subjects)), "")
 	c.Check(true, "R5", "scan", "fp.go", fmt.Sprintf("%d plain lookups in input maps in %d functions, all with a present key", nLk, len(subjects)), "")
+	c03windows(c)
 	// R2
 	if f := p.Func(p.Fpgo, "Range"); f == nil {
 		c.Unknown("R2", "Range", "-", "function not found")
@@ -493,4 +496,227 @@ func c03selftest() string {
 		}
 	}
 	return ""
+}
+
+
+// ---------------------------------------------------------------- R6 window helpers
+
+// c03windowSpec: the window [lo, hi) of the input (n = count, L = len(list)) a helper must return in the regions
+// B1: n <= 0, B2: 1 <= n && n >= L, B3: 1 <= n <= L-1. "all" is [0, L), "empty" any empty window, "" unspecified (the
+// documentation speaks of "the first/last n elements" and is silent about n <= 0).
+var c03windowSpec = map[string][3]string{
+	"Drop":     {"all", "empty", "n:L"},
+	"DropLast": {"all", "empty", "0:L-n"},
+	"Take":     {"", "all", "0:n"},
+	"TakeLast": {"", "all", "L-n:L"},
+}
+
+func c03windows(c *core.Ctx) {
+	p := c.P
+	for _, name := range []string{"Drop", "DropLast", "Take", "TakeLast"} {
+		f := p.Func(p.Fpgo, name)
+		if f == nil {
+			c.Unknown("R6", name, "-", "function not found")
+			continue
+		}
+		ok, detail := c03window(p, f, c03windowSpec[name])
+		c.Check(ok, "R6", name, p.Pos(f.Pos()), detail, detail)
+	}
+}
+
+func c03window(p *core.Prog, f *ssa.Function, spec [3]string) (bool, string) {
+	var cnt, list *ssa.Parameter
+	for _, prm := range f.Params {
+		if cnt == nil && core.IsInteger(prm.Type()) {
+			cnt = prm
+		}
+		if _, isSl := prm.Type().Underlying().(*types.Slice); isSl && list == nil {
+			list = prm
+		}
+	}
+	if cnt == nil || list == nil {
+		return false, "count / list parameters not found"
+	}
+	n, L := core.LinNode(core.Path(cnt)), core.LinNode(core.LenKey(list))
+	zero := core.LinConst(0)
+	parse := func(e string) core.Lin {
+		switch e {
+		case "0":
+			return zero
+		case "n":
+			return n
+		case "L":
+			return L
+		case "L-n":
+			return L.Add(n, -1)
+		}
+		panic("bad window spec " + e)
+	}
+	paths, complete := core.FeasiblePaths(f, 64)
+	if !complete || len(paths) == 0 {
+		return false, "too many paths to enumerate"
+	}
+	regionName := []string{"count <= 0", "count >= 1 && count >= len", "1 <= count < len"}
+	checked := 0
+	for _, path := range paths {
+		last := path[len(path)-1]
+		ret, isR := last.Instrs[len(last.Instrs)-1].(*ssa.Return)
+		if !isR {
+			continue // panic exit
+		}
+		// a value as it is on this path: phis resolved by the predecessor the path came through
+		onPath := func(v ssa.Value) ssa.Value {
+			for i := 0; i < 8; i++ {
+				v = core.Resolve(v)
+				phi, isPhi := v.(*ssa.Phi)
+				if !isPhi {
+					break
+				}
+				idx := -1
+				for k, b := range path {
+					if b == phi.Block() && k > 0 {
+						for e, pred := range b.Preds {
+							if pred == path[k-1] {
+								idx = e
+							}
+						}
+					}
+				}
+				if idx < 0 {
+					break
+				}
+				v = phi.Edges[idx]
+			}
+			return v
+		}
+		v := onPath(core.RetVals(ret)[0])
+		// window of the result
+		var lo, hi core.Lin
+		empty, known := false, false
+		switch x := v.(type) {
+		case *ssa.Parameter:
+			if x == list {
+				lo, hi, known = zero, L, true
+			}
+		case *ssa.MakeSlice:
+			if core.IsIntConst(x.Len, 0) {
+				empty, known = true, true
+			}
+		case *ssa.Slice:
+			base := core.Resolve(x.X)
+			if base == ssa.Value(list) {
+				okL, okH := true, true
+				lo, hi = zero, L
+				if x.Low != nil {
+					lo, okL = core.LinOf(x.Low)
+				}
+				if x.High != nil {
+					hi, okH = core.LinOf(x.High)
+				}
+				known = okL && okH
+			} else if al, isAl := base.(*ssa.Alloc); isAl {
+				// make([]T, 0) with constant sizes: new [0]T sliced
+				if pt, okP := al.Type().Underlying().(*types.Pointer); okP {
+					if arr, okA := pt.Elem().Underlying().(*types.Array); okA && arr.Len() == 0 {
+						empty, known = true, true
+					}
+				}
+			}
+		case *ssa.Const:
+			if x.IsNil() {
+				empty, known = true, true
+			}
+		}
+		if !known {
+			return false, "a path returns " + core.Path(v) + " (" + p.InstrPos(ret) + "), which is neither the input, an empty slice nor a slice expression of the input with linear bounds: window not decided"
+		}
+		for region := 0; region < 3; region++ {
+			if spec[region] == "" {
+				continue
+			}
+			z := core.NewZone()
+			for k := 0; k+1 < len(path); k++ {
+				b := path[k]
+				if iff, isIf := b.Instrs[len(b.Instrs)-1].(*ssa.If); isIf {
+					cv := onPath(iff.Cond)
+					if _, isK := cv.(*ssa.Const); isK {
+						continue
+					}
+					for _, cnd := range core.ExpandCond(core.Cond{V: cv, True: path[k+1] == b.Succs[0]}) {
+						if m, okM := core.AsCmp(cnd); okM {
+							z.AddCmp(m)
+						}
+					}
+				}
+			}
+			z.AddLin(zero.Add(L, -1), 0) // -L <= 0
+			switch region {
+			case 0:
+				z.AddLin(n, 0)
+			case 1:
+				z.AddLin(zero.Add(n, -1), -1) // -n <= -1
+				z.AddLin(L.Add(n, -1), 0)
+			case 2:
+				z.AddLin(zero.Add(n, -1), -1)
+				z.AddLin(n.Add(L, -1), -1)
+			}
+			if !z.Consistent() {
+				continue
+			}
+			checked++
+			where := "for " + regionName[region] + " (path ending at " + p.InstrPos(ret) + ")"
+			var slo, shi core.Lin
+			specEmpty := spec[region] == "empty"
+			if !specEmpty {
+				if spec[region] == "all" {
+					slo, shi = zero, L
+				} else {
+					i := strings.Index(spec[region], ":")
+					slo, shi = parse(spec[region][:i]), parse(spec[region][i+1:])
+				}
+				// an "all" window of an empty list is empty
+				if z.ProveLin(shi.Add(slo, -1), 0) {
+					specEmpty = true
+				}
+			}
+			resEmpty := empty || (!empty && z.ProveLin(hi.Add(lo, -1), 0))
+			switch {
+			case specEmpty && resEmpty:
+			case specEmpty:
+				return false, where + " the result must be empty but is the window [" + c03lin(lo) + ", " + c03lin(hi) + ") of the input"
+			case empty:
+				return false, where + " the result is empty but the definition prescribes the window [" + c03lin(slo) + ", " + c03lin(shi) + ")"
+			case z.ProveEq(lo, slo) && z.ProveEq(hi, shi):
+			default:
+				return false, where + " the result is the window [" + c03lin(lo) + ", " + c03lin(hi) + ") of the input, the definition prescribes [" + c03lin(slo) + ", " + c03lin(shi) + ")"
+			}
+		}
+	}
+	if checked == 0 {
+		return false, "no (path, count region) combination could be checked"
+	}
+	return true, fmt.Sprintf("%d (path, count region) combinations return the prescribed window", checked)
+}
+
+func c03lin(l core.Lin) string {
+	var ks []string
+	for k := range l.T {
+		ks = append(ks, k)
+	}
+	sort.Strings(ks)
+	s := ""
+	for _, k := range ks {
+		switch l.T[k] {
+		case 1:
+			s += "+" + k
+		case -1:
+			s += "-" + k
+		default:
+			s += fmt.Sprintf("%+d*%s", l.T[k], k)
+		}
+	}
+	if l.K != 0 || s == "" {
+		s += fmt.Sprintf("%+d", l.K)
+	}
+	return strings.TrimPrefix(s, "+")
 }
